@@ -53,6 +53,7 @@ _ASAN_FAST = "detect_leaks=0:abort_on_error=0:halt_on_error=1:allocator_may_retu
 # of a SASL exchange, first an (empty) <response/> that completes an exchange the server may
 # wrongly consider verified, then (1).  Still behaviours of the model: every client action is enabled
 # in every open state; the harness stops when the server closes the connection.
+EMBED = ("embedEmpty", "embedBareEmpty", "embedSlashEmpty", "embedKnown")
 PROBE = [{"a": "Bind", "r": "ra"}, {"a": "Stanza", "k": "message", "f": "absent", "t": "victimFull"}]
 
 
@@ -64,6 +65,12 @@ def _probed(behs, always_both=False):
         if steps and (always_both or steps[-1]["a"] in ("Reply", "Response", "Auth")):
             ver = next((s["ver"] for s in reversed(steps) if s["a"] == "Auth"), "sasl")
             out.append(dict(b, steps=steps + [{"a": "Response", "ver": ver, "cred": "empty"}] + PROBE))
+            # (3) credentials the model refuses without asking the checker (a user name that is not a
+            # localpart): an implementation that did ask is now waiting for the verdict -- deliver it,
+            # complete the exchange, then identify
+            if steps[-1].get("cred") in EMBED:
+                out.append(dict(b, steps=steps + [{"a": "Reply", "i": 1}] + PROBE))
+                out.append(dict(b, steps=steps + [{"a": "Reply", "i": 1}, {"a": "Response", "ver": ver, "cred": "empty"}] + PROBE))
     return out
 
 
@@ -158,7 +165,8 @@ def run(chk, replay=None):
         tour1, gen["tour_one_reply_both_sasl_versions"] = vf.tlc_gen("ServerGen.tla", "ServerGenTour.cfg")
         tour2, gen["tour_two_replies_sasl"] = vf.tlc_gen("ServerGen.tla", "ServerGenTour2.cfg")
         tourf, gen["tour_every_from_class_x_identity_state"] = vf.tlc_gen("ServerGen.tla", "ServerGenTourF.cfg")
-        behs = _probed(tour1 + tour2 + tourf)
+        tourc, gen["tour_every_credential_class_x_exchange_state"] = vf.tlc_gen("ServerGen.tla", "ServerGenTourC.cfg")
+        behs = _probed(tour1 + tour2 + tourf + tourc)
         if quick:
             sim, gen["random_walks_full_alphabet"] = vf.tlc_simulate("ServerGen.tla", "ServerGenSim.cfg", num=1500, depth=12, seed=chk.seed)
             behs += sim
